@@ -222,11 +222,16 @@ func (e *encoderSimpleBytes) kArrayWMbs(rv reflect.Value, ti *typeInfo, isSlice 
 		fn = e.kSeqFn(ti.elem)
 	}
 
+	elemNotAddr := !isSlice && e.h.NoAddressableReadonly && !rv.CanAddr()
+
 	j := 0
 	e.c = containerMapKey
 	e.e.WriteMapElemKey(true)
 	for {
 		rvv := rvArrayIndex(rv, j, ti, isSlice)
+		if elemNotAddr {
+			rvv = rvNotAddressable(rvv)
+		}
 		if builtin {
 			e.encodeIB(rv2i(baseRVRV(rvv)))
 		} else {
@@ -267,11 +272,16 @@ func (e *encoderSimpleBytes) kArrayW(rv reflect.Value, ti *typeInfo, isSlice boo
 		fn = e.kSeqFn(ti.elem)
 	}
 
+	elemNotAddr := !isSlice && e.h.NoAddressableReadonly && !rv.CanAddr()
+
 	j := 0
 	e.c = containerArrayElem
 	e.e.WriteArrayElem(true)
 	for {
 		rvv := rvArrayIndex(rv, j, ti, isSlice)
+		if elemNotAddr {
+			rvv = rvNotAddressable(rvv)
+		}
 		if builtin {
 			e.encodeIB(rv2i(baseRVRV(rvv)))
 		} else {
@@ -648,6 +658,10 @@ func (e *encoderSimpleBytes) kMap(f *encFnInfo, rv reflect.Value) {
 	}
 
 	var rvv = mapAddrLoopvarRV(f.ti.elem, vtypeKind)
+	if e.h.NoAddressableReadonly {
+
+		rvv = rvNotAddressable(rvv)
+	}
 
 	rtkey := f.ti.key
 	var keyTypeIsString = stringTypId == rt2id(rtkey)
@@ -670,6 +684,9 @@ func (e *encoderSimpleBytes) kMap(f *encFnInfo, rv reflect.Value) {
 	}
 
 	var rvk = mapAddrLoopvarRV(f.ti.key, ktypeKind)
+	if e.h.NoAddressableReadonly {
+		rvk = rvNotAddressable(rvk)
+	}
 
 	var it mapIter
 	mapRange(&it, rv, rvk, rvv, true)
@@ -4037,11 +4054,16 @@ func (e *encoderSimpleIO) kArrayWMbs(rv reflect.Value, ti *typeInfo, isSlice boo
 		fn = e.kSeqFn(ti.elem)
 	}
 
+	elemNotAddr := !isSlice && e.h.NoAddressableReadonly && !rv.CanAddr()
+
 	j := 0
 	e.c = containerMapKey
 	e.e.WriteMapElemKey(true)
 	for {
 		rvv := rvArrayIndex(rv, j, ti, isSlice)
+		if elemNotAddr {
+			rvv = rvNotAddressable(rvv)
+		}
 		if builtin {
 			e.encodeIB(rv2i(baseRVRV(rvv)))
 		} else {
@@ -4082,11 +4104,16 @@ func (e *encoderSimpleIO) kArrayW(rv reflect.Value, ti *typeInfo, isSlice bool) 
 		fn = e.kSeqFn(ti.elem)
 	}
 
+	elemNotAddr := !isSlice && e.h.NoAddressableReadonly && !rv.CanAddr()
+
 	j := 0
 	e.c = containerArrayElem
 	e.e.WriteArrayElem(true)
 	for {
 		rvv := rvArrayIndex(rv, j, ti, isSlice)
+		if elemNotAddr {
+			rvv = rvNotAddressable(rvv)
+		}
 		if builtin {
 			e.encodeIB(rv2i(baseRVRV(rvv)))
 		} else {
@@ -4463,6 +4490,10 @@ func (e *encoderSimpleIO) kMap(f *encFnInfo, rv reflect.Value) {
 	}
 
 	var rvv = mapAddrLoopvarRV(f.ti.elem, vtypeKind)
+	if e.h.NoAddressableReadonly {
+
+		rvv = rvNotAddressable(rvv)
+	}
 
 	rtkey := f.ti.key
 	var keyTypeIsString = stringTypId == rt2id(rtkey)
@@ -4485,6 +4516,9 @@ func (e *encoderSimpleIO) kMap(f *encFnInfo, rv reflect.Value) {
 	}
 
 	var rvk = mapAddrLoopvarRV(f.ti.key, ktypeKind)
+	if e.h.NoAddressableReadonly {
+		rvk = rvNotAddressable(rvk)
+	}
 
 	var it mapIter
 	mapRange(&it, rv, rvk, rvv, true)
